@@ -180,6 +180,16 @@ func urlPolicyByName(name string) func(*url.URL) bool {
 	case strings.HasPrefix(name, "host="):
 		h := strings.TrimPrefix(name, "host=")
 		return func(u *url.URL) bool { hook("url:host"); return u.Host == h }
+	case strings.HasPrefix(name, "panichost="):
+		// fault kind: the caller's own callback panics on one host (the panic reaches the caller)
+		h := strings.TrimPrefix(name, "panichost=")
+		return func(u *url.URL) bool {
+			hook("url:panichost")
+			if u.Host == h {
+				panic("harness callback: refusing " + h)
+			}
+			return true
+		}
 	case strings.HasPrefix(name, "pathprefix="):
 		pp := strings.TrimPrefix(name, "pathprefix=")
 		return func(u *url.URL) bool { hook("url:pathprefix"); return strings.HasPrefix(u.Path, pp) }
